@@ -1,10 +1,13 @@
 #!/bin/bash
-# mut.sh <patch.diff> <property...> : apply a patch to /repo, run the quick checks, undo
+# mut.sh <patch.diff> <property...> : apply a patch to /repo, run the quick checks, undo.
+# Evidence files are saved and put back: evidence must only come from the unchanged tree.
 p=$1; shift
 cd /repo && git diff --quiet || { echo "/repo not clean"; exit 2; }
 git -C /repo apply $p || { echo "apply failed"; exit 2; }
+bak=$(mktemp -d /tmp/evbak.XXXX); cp -r /verif/evidence/. $bak/
 for c in "$@"; do
   (cd /verif && timeout 3000 ./check $c quick 2>&1 | grep -v "^WARNING" | cut -c1-300 | head -5)
 done
 git -C /repo checkout -- .
+rm -rf /verif/evidence; mkdir -p /verif/evidence; cp -r $bak/. /verif/evidence/; rm -rf $bak
 git -C /repo status --short | head -3
